@@ -125,6 +125,7 @@ class Program:
             if src is None:
                 src = p.read_text()
             self.modules[name] = Module(name, rel, src, ispkg)
+        self._undo_private_renames()
         for m in self.modules.values():
             for n in m.tree.body:
                 if isinstance(n, ast.ClassDef):
@@ -146,6 +147,61 @@ class Program:
                     fi = FuncInfo(m, n)
                     self.functions[fi.qual] = fi
                     self._nested(fi)
+
+    # private helpers of the reference tree: (file, class) -> {name: number of parameters}.  The rules address these by
+    # name; a private helper may be renamed freely, so a rename is undone in the model before anything is looked up.
+    PRIVATE_HELPERS = {
+        ('qubovert/_pcbo.py', None): {'_get_bounds': 2, '_special_constraints_eq_zero': 3, '_special_constraints_le_zero': 5},
+        ('qubovert/_pcbo.py', 'PCBO'): {'_append_constraint': 3, '_next_ancilla': 1, '_pop_constraint': 2},
+        ('qubovert/_pcso.py', None): {'_empty_pcbo': 1},
+        ('qubovert/_pcso.py', 'PCSO'): {'_append_constraint': 3},
+        ('qubovert/_pubo.py', 'PUBO'): {'_check_key_valid': 1, '_reduce_degree': 5},
+        ('qubovert/_puso.py', 'PUSO'): {'_check_key_valid': 1, '_create_pubo': 1, '_to_puso': 1},
+        ('qubovert/sim/_anneal.py', None): {'_create_spin_schedule': 4, '_package_spin_results': 4},
+        ('qubovert/sim/_anneal_results.py', None): {'_recompute_best': 1},
+        ('qubovert/utils/_dict_arithmetic.py', None): {'_generate_key_value_pairs': 2},
+        ('qubovert/utils/_solve_bruteforce.py', None): {'_solve_bruteforce': 5},
+    }
+
+    def _undo_private_renames(self):
+        self.renamed = {}
+        by_rel = {m.relpath: m for m in self.modules.values()}
+        for (rel, cname), table in self.PRIVATE_HELPERS.items():
+            m = by_rel.get(rel)
+            if m is None:
+                continue
+            body = m.tree.body
+            if cname is not None:
+                cl = [n for n in body if isinstance(n, ast.ClassDef) and n.name == cname]
+                if not cl:
+                    continue
+                body = cl[0].body
+            defs = {n.name: n for n in body if isinstance(n, ast.FunctionDef) and n.name.startswith('_')
+                    and not (n.name.startswith('__') and n.name.endswith('__'))}
+
+            def arity(n):
+                a = n.args
+                return len(a.posonlyargs + a.args + a.kwonlyargs) + bool(a.vararg) + bool(a.kwarg)
+            missing = [k for k in table if k not in defs]
+            fresh = [k for k in defs if k not in table]
+            for k in missing:
+                cand = [d for d in fresh if arity(defs[d]) == table[k]]
+                rivals = [k2 for k2 in missing if k2 != k and table[k2] == table[k]]
+                if len(cand) == 1 and not rivals:
+                    self.renamed[cand[0]] = k
+                    fresh.remove(cand[0])
+        if not self.renamed:
+            return
+        for m in self.modules.values():
+            for n in ast.walk(m.tree):
+                if isinstance(n, ast.FunctionDef) and n.name in self.renamed:
+                    n.name = self.renamed[n.name]
+                elif isinstance(n, ast.Name) and n.id in self.renamed:
+                    n.id = self.renamed[n.id]
+                elif isinstance(n, ast.Attribute) and n.attr in self.renamed:
+                    n.attr = self.renamed[n.attr]
+                elif isinstance(n, ast.alias) and n.name in self.renamed:
+                    n.name = self.renamed[n.name]
 
     def _nested(self, outer):
         for s in ast.walk(outer.node):
